@@ -33,7 +33,7 @@ def gen_spec(seed):
     quanti = {}
     for j in range(nq):
         kind = rng.choice(['latent0', 'latent1', 'noise', 'copy_prev', 'monotone_prev', 'discrete', 'constant', 'nan_heavy', 'noisy_prev',
-                           'neg_prev', 'outlier_low', 'outlier_high'])
+                           'neg_prev', 'outlier_low', 'outlier_high', 'mode_heavy'])
         names = list(quanti)
         if kind == 'latent0':
             v = [round(z[0][i] + rng.gauss(0, 0.7), 3) for i in range(n)]
@@ -59,6 +59,9 @@ def gen_spec(seed):
             v = [float(rng.randint(0, 3)) for _ in range(n)]
         elif kind == 'constant':
             v = [1.0] * n
+        elif kind == 'mode_heavy':
+            # mostly unknown; where it is known, one value dominates (its share of ALL rows stays moderate)
+            v = [None if rng.random() < 0.55 else (0.0 if rng.random() < 0.85 else round(1 + z[0][i] + rng.gauss(0, 0.3), 3)) for i in range(n)]
         elif kind == 'nan_heavy':
             v = [None if rng.random() < 0.4 else round(z[0][i] + rng.gauss(0, 1), 3) for i in range(n)]
         else:
@@ -82,7 +85,9 @@ def gen_spec(seed):
     spec = {'task': task, 'quanti': quanti, 'quali': quali, 'y': y,
             'n_best': rng.randint(1, max(1, nq + nk)), 'thresh_corr': rng.choice([1, 1, 0.9, 0.7, 0.5]),
             'measures': rng.choice(['default', 'default', 'alt'] + (['outlier', 'multi'] if task == 'classification' else [])),
-            'copy_of_target': False, 'select_twice': rng.random() < 0.3}
+            'copy_of_target': False, 'select_twice': rng.random() < 0.3,
+            # user-set screens on the share of the mode / of missing values (None: the defaults, 0.999)
+            'thresh_mode': rng.choice([None, None, 0.9, 0.6, 0.5]), 'thresh_nan': rng.choice([None, None, None, 0.5, 0.3])}
     if rng.random() < 0.3:
         # a feature that is an exact copy of / strictly monotone in the target
         if task == 'regression' or rng.random() < 0.5:
@@ -116,6 +121,10 @@ def make_selector(spec):
     from AutoCarver import selectors as S
     kw = dict(n_best=spec['n_best'], quantitative_features=list(spec['quanti']), qualitative_features=list(spec['quali']),
               thresh_corr=spec['thresh_corr'])
+    if spec.get('thresh_mode') is not None:
+        kw['thresh_mode'] = spec['thresh_mode']
+    if spec.get('thresh_nan') is not None:
+        kw['thresh_nan'] = spec['thresh_nan']
     if spec['task'] == 'classification':
         if spec['measures'] == 'outlier':       # user-supplied outlier screen before the association measure
             kw['quantitative_measures'] = [S.zscore_measure, S.kruskal_measure]
@@ -252,13 +261,15 @@ def reference_measure(spec, f, which=0):
     """independent value of the ranking measure of feature f, or None when undefined / discarded;
     `which` selects the measure when several are evaluated (spec['measures'] == 'multi')"""
     y = spec['y']
+    t_mode = spec.get('thresh_mode') or 0.999
+    t_nan = spec.get('thresh_nan') or 0.999
     if f in spec['quanti']:
         x = spec['quanti'][f]
         nn = [v for v in x if v is not None]
-        if len(nn) == 0 or (len(x) - len(nn)) / len(x) >= 0.999:
+        if len(nn) == 0 or (len(x) - len(nn)) / len(x) >= t_nan:
             return None
         mode = max(set(nn), key=lambda v: (nn.count(v), -v))
-        if nn.count(mode) / len(x) >= 0.999:
+        if nn.count(mode) / len(x) >= t_mode:         # share of the mode among ALL rows
             return None
         if spec['task'] == 'classification':
             if spec['measures'] == 'outlier' and zscore_discards(x, 0.03):
@@ -271,10 +282,10 @@ def reference_measure(spec, f, which=0):
         return None if r is None else 1 - r
     x = spec['quali'][f]
     xn = [v for v in x if v is not None]
-    if not xn or (len(x) - len(xn)) / len(x) >= 0.999:
+    if not xn or (len(x) - len(xn)) / len(x) >= t_nan:
         return None
     mode = max(set(xn), key=xn.count)
-    if xn.count(mode) / len(x) >= 0.999:
+    if xn.count(mode) / len(x) >= t_mode:
         return None
     if spec['task'] == 'classification':
         return cramer(x, y) if spec['measures'] == 'alt' else tschuprow(x, y)
@@ -385,6 +396,8 @@ def case_of_spec(spec, cid, meta):
     mref = [max((g['mrefs'][0][i] for g in groups), default=-1) for i in range(len(feats))]
     mcode = [max((g['mcodes'][0][i] for g in groups), default=-1) for i in range(len(feats))]
     must = [fid[spec['copy_of_target']]] if spec.get('copy_of_target') else []
+    if must and reference_measure(spec, spec['copy_of_target']) is None:
+        must = []       # the copy itself fails a user-set screen (share of its mode / of missing values): nothing is owed
     meta = dict(meta)
     meta.update({'task': spec['task'], 'measures': spec['measures'], 'selected': list(res), 'exc': None if exc is None else repr(exc)[:300],
                  'default_regression_quantitative': spec['task'] == 'regression' and bool(spec['quanti'])})
